@@ -255,3 +255,58 @@ def make_overrun(rng, sp, nodes):
     b = bytearray(data)
     b[o + h[1]] = 0x80 | (h[2] + g)
     return bytes(b) + bytes(rng.getrandbits(8) for _ in range(g)), o, t[1], h[2] + g
+
+
+def make_straddle(rng, sp):
+    """A known-size master whose declared range ends INSIDE the header (id + size field) of an unknown-size descendant master: the header
+    does not fit, so strict mode has to report the child as oversized although it declares no size.  Layout:
+      [outer master of unknown size]? P(known size S) { leading elements; [U(unknown size) {]? C(unknown size, size field of 1..8 bytes) { content } ... }
+    with S = (bytes before C's header inside P) + j, 0 <= j <= |header of C| (j = 0 and j = |header| are the fitting controls).
+    Returns (data, offset of C's header, j, header length, id of C) or None when the specification has no suitable chain."""
+    def leaves(chain, n, fill=(0, 4)):
+        out = b""
+        kids = [i for i in E.allowed_children(sp, chain) if sp.get_type(i) == "B"]
+        for _ in range(n):
+            if not kids:
+                break
+            pl = bytes(rng.getrandbits(8) for _ in range(rng.randint(*fill)))
+            out += E.id_bytes(rng.choice(kids)) + E.size_vint(len(pl)) + pl
+        return out
+    for _ in range(40):
+        chain = []
+        pre_outer = b""
+        if rng.random() < 0.4:
+            cands = [i for i in E.allowed_children(sp, []) if sp.get_type(i) == "M" and not any(isinstance(x, tuple) for x in sp.get_path(i))]
+            if not cands:
+                continue
+            o = rng.choice(cands)
+            pre_outer = E.id_bytes(o) + E.unknown_vint(rng.choice([1, 1, 2, 8]))
+            chain.append(o)
+        cands = [i for i in E.allowed_children(sp, chain) if sp.get_type(i) == "M" and not any(isinstance(x, tuple) for x in sp.get_path(i))]
+        if not cands:
+            continue
+        P = rng.choice(cands)
+        chain.append(P)
+        inside = leaves(chain, rng.randint(0, 2))
+        if rng.random() < 0.35:
+            cands = [i for i in E.allowed_children(sp, chain) if sp.get_type(i) == "M" and not any(isinstance(x, tuple) for x in sp.get_path(i))]
+            if not cands:
+                continue
+            U = rng.choice(cands)
+            chain.append(U)
+            inside += E.id_bytes(U) + E.unknown_vint(rng.choice([1, 2]))
+            inside += leaves(chain, rng.randint(0, 1))
+        cands = [i for i in E.allowed_children(sp, chain) if sp.get_type(i) == "M" and not any(isinstance(x, tuple) for x in sp.get_path(i))]
+        if not cands:
+            continue
+        C = rng.choice(cands)
+        hdr = E.id_bytes(C) + E.unknown_vint(rng.choice([1, 1, 2, 4, 8]))
+        j = rng.randint(0, len(hdr))
+        if rng.random() < 0.7 and len(hdr) > 1:
+            j = rng.randint(1, len(hdr) - 1)
+        tail = leaves(chain + [C], rng.randint(0, 2))
+        S = len(inside) + j
+        phdr = E.id_bytes(P) + E.size_vint(S, rng.choice([None, None, 2, 8]))
+        data = pre_outer + phdr + inside + hdr + tail
+        return data, len(pre_outer) + len(phdr) + len(inside), j, len(hdr), C
+    return None
